@@ -112,5 +112,6 @@ Definition entry_c06 (name : str) (t : table) : option table :=
   if str_eqb name (Str "c06_line") then Some (map c06_line_row t)
   else if str_eqb name (Str "c06_doc") then Some (map c06_doc_row t)
   else if str_eqb name (Str "c06_spec") then Some (map c06_spec_row t)
-  else if str_eqb name (Str "c06_info") then Some [[bstr nt_fixed_tok; bstr nt_fixed_dlt; bstr nt_tok_end_at_hash; bstr nt_uri_unclosed_to_eol]]
+  else if str_eqb name (Str "c06_info") then Some [[bstr nt_fixed_tok; bstr nt_fixed_dlt; bstr nt_tok_end_at_hash; bstr nt_uri_unclosed_to_eol;
+                                                             bstr nt_skips_comment_lines]]
   else None.
